@@ -132,8 +132,11 @@ func (w *c11World) line(c *Ctx, in string) {
 			wc.c.WriteMessage(websocket.TextMessage, []byte(loginJSON(parts[2], pwHash(pw), packager.Type.InitConnection.Type, packager.Type.InitConnection.OAuthRequest, "")))
 		}
 		w.obs(c, in, ms(45))
-	case "record": // record <marker> <onetime 0|1> <except name|->  — EventAppend + EventBroadcast, as every server-side event does
+	case "record": // record <marker> <onetime 0|1|v:<text>> <except name|->  — EventAppend + EventBroadcast, as every server-side event does
 		pk := chatPackage(parts[1], parts[2] == "1", 0)
+		if strings.HasPrefix(parts[2], "v:") { // any other spelling of the one-shot flag: only "true" means one-shot
+			pk.Head.OneTime = parts[2][2:]
+		}
 		ex := ""
 		if parts[3] != "-" {
 			ex = w.clientID(parts[3])
@@ -411,7 +414,11 @@ func runC11(c *Ctx) {
 				if r.Chance(1, 4) {
 					one = 1
 				}
-				w.line(c, fmt.Sprintf("record m%d %d %s", mark, one, ex))
+				ones := fmt.Sprint(one)
+				if one == 0 && r.Chance(1, 4) { // the flag is free text from the client: anything but "true" is retained
+					ones = "v:" + gen.Pick(r, []string{"True", "TRUE", "1", "t", "T", "false", "0", "yes", "tru", "true1"})
+				}
+				w.line(c, fmt.Sprintf("record m%d %s %s", mark, ones, ex))
 				c.Count(fmt.Sprintf("op.record.onetime%d", one))
 			case "chat":
 				mark++
